@@ -1,4 +1,4 @@
-CONSTANTS Alphabet = {10, 13, 62, 65} MaxLen = 4 Caps = {3,4,5} GrowLimit = 64 MaxOps = 3
+CONSTANTS Alphabet = {10, 13, 62, 65} MaxLen = 4 Caps = {3,4,5} GrowLimit = 64 MaxOps = 3 MaxFail = 3
 SPECIFICATION Spec
 INVARIANT Refines
 CHECK_DEADLOCK FALSE
